@@ -391,8 +391,11 @@ class StmtMixin:
             b.assume(z3.Not(t))
             self.narrow(s.test, a, True)
             self.narrow(s.test, b, False)
-            outs += self.block(s.body, [a])
-            outs += self.block(s.orelse, [b]) if s.orelse else [_out('next', b)]
+            ts = z3.simplify(t)
+            if not z3.is_false(ts):
+                outs += self.block(s.body, [a])
+            if not z3.is_true(ts):
+                outs += self.block(s.orelse, [b]) if s.orelse else [_out('next', b)]
         return outs
 
     def narrow(self, test, st, positive):
@@ -428,7 +431,9 @@ class StmtMixin:
                 elif v.ty.kind == 'opt' and v.ty.args[0].kind == 'obj':
                     st.env[test.args[0].id] = SV(TObj(cn), v.z)
                 elif v.ty.kind == 'any':
-                    st.env[test.args[0].id] = self.from_any(v, TObj(cn))
+                    nv = self.from_any(v, TObj(cn))
+                    self.assume_typed(nv, st, depth=0)       # an instance is a live, non-null object of that class
+                    st.env[test.args[0].id] = nv
 
     def st_Try(self, s, st):
         caught = []
